@@ -73,6 +73,9 @@ func main() {
 		c06.Run(os.Args[2], os.Args[3])
 	case "c03":
 		c03.Run(os.Args[2], os.Args[3])
+	case "c03stress":
+		n, _ := strconv.Atoi(os.Args[3])
+		c03.Stress(os.Args[2], n)
 	case "c18":
 		c18.Run(os.Args[2], os.Args[3])
 	case "c07":
